@@ -1092,6 +1092,56 @@ func (t *TruncateStatement) SQL() string {
 	return sb.String()
 }
 
+// SQL returns the SQL representation of a MySQL REPLACE INTO statement.
+func (r *ReplaceStatement) SQL() string {
+	if r == nil {
+		return ""
+	}
+	sb := getBuilder()
+	defer putBuilder(sb)
+	sb.WriteString("REPLACE INTO ")
+	sb.WriteString(safeQualifiedName(r.TableName))
+	if len(r.Columns) > 0 {
+		sb.WriteString(" (")
+		sb.WriteString(exprListSQL(r.Columns))
+		sb.WriteString(")")
+	}
+	sb.WriteString(" VALUES ")
+	rows := make([]string, len(r.Values))
+	for i, row := range r.Values {
+		rows[i] = "(" + exprListSQL(row) + ")"
+	}
+	sb.WriteString(strings.Join(rows, ", "))
+	return sb.String()
+}
+
+// SQL returns the SQL representation of a MySQL SHOW statement.
+func (s *ShowStatement) SQL() string {
+	if s == nil {
+		return ""
+	}
+	out := "SHOW " + s.ShowType
+	if s.ObjectName != "" {
+		if strings.HasPrefix(s.ShowType, "CREATE ") {
+			out += " " + safeQualifiedName(s.ObjectName) // SHOW CREATE TABLE name
+		} else {
+			out += " FROM " + safeQualifiedName(s.ObjectName) // SHOW COLUMNS FROM name
+		}
+	}
+	if s.From != "" {
+		out += " FROM " + safeName(s.From) // SHOW TABLES FROM database
+	}
+	return out
+}
+
+// SQL returns the SQL representation of a DESCRIBE statement.
+func (d *DescribeStatement) SQL() string {
+	if d == nil {
+		return ""
+	}
+	return "DESCRIBE " + safeQualifiedName(d.TableName)
+}
+
 func (w *WithClause) SQL() string {
 	if w == nil {
 		return ""
